@@ -45,6 +45,44 @@ type ExecutorEngine struct {
 	bufferPool *sync.Pool
 	// subscriptionUpdateInterval is the actual interval on which the server sends subscription updates to the client.
 	subscriptionUpdateInterval time.Duration
+	// opHandlers holds, per active operation id, the event handler its goroutine emits through.
+	opHandlers sync.Map
+}
+
+// stoppableEventHandler forwards the events of one operation until the operation is stopped. The
+// mutex makes "stop and say so" atomic with respect to whatever the operation's goroutine is
+// emitting, so nothing can follow the message that ends the operation.
+type stoppableEventHandler struct {
+	mu      sync.Mutex
+	stopped bool
+	next    EventHandler
+}
+
+func (s *stoppableEventHandler) Emit(eventType EventType, id string, data []byte, err error) {
+	s.mu.Lock()
+	defer s.mu.Unlock()
+	if s.stopped {
+		return
+	}
+	s.next.Emit(eventType, id, data, err)
+}
+
+// stopWith emits one last event and drops everything the operation tries to emit afterwards.
+func (s *stoppableEventHandler) stopWith(eventType EventType, id string) {
+	s.mu.Lock()
+	defer s.mu.Unlock()
+	if s.stopped {
+		return
+	}
+	s.stopped = true
+	s.next.Emit(eventType, id, nil, nil)
+}
+
+// stop drops everything the operation tries to emit from now on.
+func (s *stoppableEventHandler) stop() {
+	s.mu.Lock()
+	defer s.mu.Unlock()
+	s.stopped = true
 }
 
 // StartOperation will start any operation.
@@ -63,19 +101,28 @@ func (e *ExecutorEngine) StartOperation(ctx context.Context, id string, payload 
 		return err
 	}
 
+	opHandler := &stoppableEventHandler{next: eventHandler}
+	e.opHandlers.Store(id, opHandler)
+
 	if executor.OperationType() == ast.OperationTypeSubscription {
-		go e.startSubscription(ctx, id, executor, eventHandler)
+		go e.startSubscription(ctx, id, executor, opHandler)
 		return nil
 	}
 
-	go e.handleNonSubscriptionOperation(ctx, id, executor, eventHandler)
+	go e.handleNonSubscriptionOperation(ctx, id, executor, opHandler)
 	return nil
 }
 
 // StopSubscription will stop an active subscription.
 func (e *ExecutorEngine) StopSubscription(id string, eventHandler EventHandler) error {
+	// Only an operation that is still active is answered, and the answer is the last message for
+	// its id: an id that was never started or has already had its terminal message gets nothing.
+	// The handler is closed before the context is cancelled, otherwise the operation could still
+	// report that cancellation.
+	if opHandler, ok := e.opHandlers.LoadAndDelete(id); ok {
+		opHandler.(*stoppableEventHandler).stopWith(EventTypeOnSubscriptionCompleted, id)
+	}
 	e.subCancellations.Cancel(id)
-	eventHandler.Emit(EventTypeOnSubscriptionCompleted, id, nil, nil)
 	return nil
 }
 
@@ -85,6 +132,12 @@ func (e *ExecutorEngine) TerminateAllSubscriptions(eventHandler EventHandler) er
 		return nil
 	}
 
+	// The operations are given up without a word; none of them may speak up afterwards.
+	e.opHandlers.Range(func(id, opHandler any) bool {
+		opHandler.(*stoppableEventHandler).stop()
+		e.opHandlers.Delete(id)
+		return true
+	})
 	e.subCancellations.CancelAndRemoveAll()
 
 	eventHandler.Emit(EventTypeOnConnectionTerminatedByServer, "", []byte("connection terminated by server"), nil)
@@ -119,6 +172,7 @@ func (e *ExecutorEngine) checkForDuplicateSubscriberID(ctx context.Context, id s
 
 func (e *ExecutorEngine) startSubscription(ctx context.Context, id string, executor Executor, eventHandler EventHandler) {
 	defer func() {
+		e.opHandlers.CompareAndDelete(id, eventHandler)
 		err := e.executorPool.Put(executor)
 		if err != nil {
 			e.logger.Error("subscription.Handle.startSubscription()",
@@ -177,7 +231,6 @@ func (e *ExecutorEngine) executeSubscription(buf *graphql.EngineResultWriter, id
 
 func (e *ExecutorEngine) handleNonSubscriptionOperation(ctx context.Context, id string, executor Executor, eventHandler EventHandler) {
 	defer func() {
-		e.subCancellations.Cancel(id)
 		err := e.executorPool.Put(executor)
 		if err != nil {
 			e.logger.Error("subscription.Handle.handleNonSubscriptionOperation()",
@@ -193,20 +246,32 @@ func (e *ExecutorEngine) handleNonSubscriptionOperation(ctx context.Context, id 
 	defer e.bufferPool.Put(buf)
 
 	err := executor.Execute(buf)
-	if err != nil {
-		e.logger.Error("subscription.Handle.handleNonSubscriptionOperation()",
-			abstractlogger.Error(err),
+
+	emitTerminal := func() {
+		if err != nil {
+			e.logger.Error("subscription.Handle.handleNonSubscriptionOperation()",
+				abstractlogger.Error(err),
+			)
+
+			eventHandler.Emit(EventTypeOnError, id, nil, err)
+			return
+		}
+
+		e.logger.Debug("subscription.Handle.handleNonSubscriptionOperation()",
+			abstractlogger.ByteString("execution_result", buf.Bytes()),
 		)
 
-		eventHandler.Emit(EventTypeOnError, id, nil, err)
-		return
+		eventHandler.Emit(EventTypeOnNonSubscriptionExecutionResult, id, buf.Bytes(), err)
 	}
 
-	e.logger.Debug("subscription.Handle.handleNonSubscriptionOperation()",
-		abstractlogger.ByteString("execution_result", buf.Bytes()),
-	)
-
-	eventHandler.Emit(EventTypeOnNonSubscriptionExecutionResult, id, buf.Bytes(), err)
+	if !e.opHandlers.CompareAndDelete(id, eventHandler) {
+		// The operation was stopped meanwhile. Whoever stopped it has the last word, and its id
+		// may already belong to a newer operation, which must not be cancelled.
+		return
+	}
+	// The terminal message and the release of the id are one step for everybody who looks the id
+	// up: a client may use the id again as soon as it has seen that message, and not before.
+	e.subCancellations.CancelAfter(id, emitTerminal)
 }
 
 // Interface Guards
